@@ -149,7 +149,7 @@ def coqstr(s):
     """Render a Python str as a Coq string term (ASCII; non printable via `sl`)."""
     if all(32 <= ord(c) < 127 for c in s):
         return '"' + s.replace('"', '""') + '"'
-    return "(sl [" + ";".join(str(ord(c)) for c in s) + "])"
+    return "(sl [" + ";".join(str(ord(c)) for c in s) + "]%nat)"
 
 
 def coqz(z):
